@@ -132,16 +132,26 @@ Print Assumptions C03_transmission_tags.
 
 (* ---- abandoned_group_skipped ------------------------------------------------------------------
    What next() leaves out because the peer abandoned group l is exactly the leading run of packets
-   of group l (a lone packet of our own is sent regardless); with l = 0 nothing is left out. *)
+   of group l.  Exceptions, as in the code: a lone packet of our own is sent regardless; a picked
+   packet of our own that carries key material (FlagCrypt) is sent alone regardless and leaves the
+   group abandoned for the call after it.  With l = 0 nothing is left out. *)
 Theorem C03_abandoned_group_skipped :
   forall i l q,
     abandon i l q =
     match q with
-    | [n] => if is_own i n then q else if 0 <? l then dropwhile (in_group l) q else q
-    | _ => if 0 <? l then dropwhile (in_group l) q else q
+    | [] => []
+    | n :: r =>
+      if is_nil r && is_own i n then q
+      else if f_crypt (p_fl n) && is_own i n then n :: abandon i l r
+      else if 0 <? l then dropwhile (in_group l) q else q
     end.
 Proof. exact abandon_spec. Qed.
 Print Assumptions C03_abandoned_group_skipped.
+
+Theorem C03_nothing_abandoned_without_request :
+  forall i q, abandon i 0 q = q.
+Proof. exact abandon_zero. Qed.
+Print Assumptions C03_nothing_abandoned_without_request.
 
 (* ---- the keep-alive-only queue (observation, not a violation) -----------------------------------
    A queue of at least two keep-alives of our own yields a container with Len = 0 which the peer
@@ -168,23 +178,27 @@ Print Assumptions C03_drain_errors_only_empty_container.
 (* ---- non-vacuity ---------------------------------------------------------------------------------
    F = 256 KiB, Packets = 32, own device 1, device 2 registered.  Queue: a large own packet, a
    keep-alive, a tagged packet for device 2, a small packet with an empty device ID, a large own
-   packet.  Three transmissions: [p1] (the keep-alive is elided, p2 does not fit and is carried
-   over), a multi-device container [p2; p3], then [p4] which did not fit either. *)
+   packet, a small own packet carrying key material (flag word 256 = FlagCrypt), a small own packet.
+   Five transmissions: [p1] (the keep-alive is elided, p2 does not fit and is carried over), a
+   multi-device container [p2; p3], [p4] which did not fit either (p5 is carried over in turn), [p5] alone
+   because it is the picked packet and carries key material, [p6]. *)
 Definition ex_conf : conf := mkConf 262144 32 1 false None.
 Definition ex_reg (d : Z) : bool := d =? 2.
 Definition ex_queue : list packet :=
-  [ pk 7 1 1 0 [] 200000 11; keepalive 1 []; pk 8 2 2 0 [5] 100000 12; pk 9 3 0 0 [] 10 13; pk 10 4 1 0 [] 262000 14 ].
+  [ pk 7 1 1 0 [] 200000 11; keepalive 1 []; pk 8 2 2 0 [5] 100000 12; pk 9 3 0 0 [] 10 13; pk 10 4 1 0 [] 262090 14;
+    pk 11 5 1 256 [] 0 0; pk 12 6 1 0 [] 30 16 ].
 
 Example C03_nonvacuous :
   wf_conf ex_conf /\
   Forall (fun p => queueable p = true /\ (is_nop p = true \/ plain p = true)) ex_queue /\
   all_reg ex_reg (c_own ex_conf) ex_queue /\
-  length (drain ex_conf ex_reg (mkS ex_queue None 0)) = 3%nat /\
+  length (drain ex_conf ex_reg (mkS ex_queue None 0)) = 5%nat /\
   map (fun s => s_peek (st_after s)) (drain ex_conf ex_reg (mkS ex_queue None 0)) =
-    [Some (pk 8 2 2 0 [5] 100000 12); Some (pk 10 4 1 0 [] 262000 14); None] /\
-  map (fun s => len (tx_packets (st_tx s))) (drain ex_conf ex_reg (mkS ex_queue None 0)) = [1; 2; 1] /\
+    [Some (pk 8 2 2 0 [5] 100000 12); Some (pk 10 4 1 0 [] 262090 14); Some (pk 11 5 1 256 [] 0 0); None; None] /\
+  map (fun s => len (tx_packets (st_tx s))) (drain ex_conf ex_reg (mkS ex_queue None 0)) = [1; 2; 1; 1; 1] /\
   map untag_d (deliveries (drain ex_conf ex_reg (mkS ex_queue None 0))) =
-    [ dl 1 7 1 1 0 [] 200000 11; dl 2 8 2 2 0 [] 100000 12; dl 1 9 3 1 0 [] 10 13; dl 1 10 4 1 0 [] 262000 14 ].
+    [ dl 1 7 1 1 0 [] 200000 11; dl 2 8 2 2 0 [] 100000 12; dl 1 9 3 1 0 [] 10 13; dl 1 10 4 1 0 [] 262090 14;
+      dl 1 11 5 1 256 [] 0 0; dl 1 12 6 1 0 [] 30 16 ].
 Proof.
   split; [vm_compute; split; [discriminate|reflexivity]|].
   split; [repeat (constructor; [vm_compute; split; [reflexivity|auto]|]); constructor|].
